@@ -22,7 +22,9 @@ pub fn gen_op(rng: &mut Rng, w: &World, stats: &mut Stats) -> Op {
     match rng.below(10) {
         0..=2 => {
             stats.inc("op_insert");
-            Op::Insert { au, key, hash, len: 1 + rng.below(2), now: ts }
+            // len is a function of the hash, except for a rare twin-len pair (known class D11)
+            let len = if rng.chance(1, 60) { 3 } else if hash == HASH_A { 1 } else { 2 };
+            Op::Insert { au, key, hash, len, now: ts }
         }
         3..=4 => {
             stats.inc("op_delete");
@@ -34,12 +36,20 @@ pub fn gen_op(rng: &mut Rng, w: &World, stats: &mut Stats) -> Op {
             let e = if marker {
                 w.signed(au, &key, empty_hash(), 0, ts)
             } else {
-                let twin = rng.chance(1, 50);
-                w.signed(au, &key, hash, 1 + rng.below(if twin { 2 } else { 1 }), ts)
+                let len = if rng.chance(1, 60) { 3 } else if hash == HASH_A { 1 } else { 2 };
+                w.signed(au, &key, hash, len, ts)
             };
             Op::Remote { e, now: T0 + 10 }
         }
     }
+}
+
+/// The recorded twin-len history: same (author, key, timestamp, hash), different len.
+pub fn twin_witness(w: &World) -> Vec<Op> {
+    vec![
+        Op::Remote { e: w.signed(0, b"", HASH_A, 1, T0 + 4), now: T0 + 10 },
+        Op::Insert { au: 0, key: vec![], hash: HASH_A, len: 2, now: T0 + 4 },
+    ]
 }
 
 pub fn cop(w: &World, op: &Op) -> String {
@@ -151,6 +161,11 @@ pub fn run(seed: u64, n: usize, out: &Path, thorough: bool) -> anyhow::Result<()
         let w = World::new(seed.wrapping_add((i % 7) as u64), n_auth);
         let len = 1 + rng.below(if thorough { 14 } else { 10 }) as usize;
         let mut ops: Vec<Op> = (0..len).map(|_| gen_op(&mut rng, &w, &mut stats)).collect();
+        if i == 0 {
+            // corpus: the recorded twin-len finding (KNOWN_FINDINGS.txt) is re-demonstrated on every run
+            ops = twin_witness(&w);
+            stats.inc("corpus_cases");
+        }
         // a third of the cases: permutation / duplication of the previous ops
         if rng.chance(1, 3) {
             let extra: Vec<Op> = ops.iter().filter(|o| matches!(o, Op::Remote { .. })).cloned().collect();
